@@ -5,22 +5,24 @@ Import ListNotations.
 (* a case: the set-up of the receiver (how the option allow_unsolicited is written, how the configuration object was
    made), the delivery (binding the caller names, Response/@Destination, which assertions arrive encrypted, abstract
    Response and outstanding set; its allow_unsolicited field is a placeholder: the model puts there what the code
-   makes of the option, the spec what the option says) and the verdict observed on the real
-   Saml2Client.parse_authn_request_response *)
-Definition case := (setup * delivery * verdict)%type.
+   makes of the option, the spec what the option says), the Method each SubjectConfirmation names (per assertion, per
+   confirmation; [] = bearer throughout) and the verdict observed on the real Saml2Client.parse_authn_request_response *)
+Definition case := (setup * delivery_m * verdict)%type.
 
-Definition mk (b : binding) (d : destination) (fl : list bool) (s : setup) (out : list (string * string))
+Definition mk (b : binding) (d : destination) (fl : list bool) (mss : list (list cm)) (s : setup) (out : list (string * string))
   (irt : option string) (version : nat * nat) (top : string) (second : option string)
   (assertions : list assertion_in) (obs : verdict) : case :=
-  (s, {| via := b; dest := d; sealed := fl;
-         resp := {| allow_unsolicited := false; outstanding := out; irt := irt; version := version; status_top := top;
-                    status_second := second; assertions := assertions |} |}, obs).
+  (s, {| base := {| via := b; dest := d; sealed := fl;
+                    resp := {| allow_unsolicited := false; outstanding := out; irt := irt; version := version; status_top := top;
+                               status_second := second; assertions := assertions |} |};
+         methods := mss |}, obs).
 
 Definition c_setup (c : case) : setup := fst (fst c).
-Definition c_delivery (c : case) : delivery := snd (fst c).
+Definition c_delivery_m (c : case) : delivery_m := snd (fst c).
+Definition c_delivery (c : case) : delivery := base (c_delivery_m c).
 
-Definition agrees (c : case) : bool := verdict_eqb (receive_cfg (c_setup c) (c_delivery c)) (snd c).
-Definition holds (c : case) : bool := spec_c_b (c_setup c) (c_delivery c) (snd c).
+Definition agrees (c : case) : bool := verdict_eqb (receive_cfg_m (c_setup c) (c_delivery_m c)) (snd c).
+Definition holds (c : case) : bool := spec_cm_b (c_setup c) (c_delivery_m c) (snd c).
 
 (* an assertion that arrives encrypted has a confirmation whose data does not answer the request the Response answers *)
 Definition sealed_stray (y : delivery) : bool :=
@@ -50,7 +52,9 @@ Definition explain (c : case) :=
   let s := c_setup c in
   let y := configure (match meaning (opt s) with Some b => b | None => false end) (c_delivery c) in
   let x := resp y in
-  (receive_cfg s (c_delivery c), receive_cfg_v0 s (c_delivery c), (meaning (opt s), effective_allow (opt s), misread (opt s)),
+  (receive_cfg_m s (c_delivery_m c), receive_cfg s (c_delivery c), receive_cfg_v0 s (c_delivery c),
+   receive_m_bearer (configure_m (match meaning (opt s) with Some b => b | None => false end) (c_delivery_m c)), (meaning (opt s), effective_allow (opt s), misread (opt s)),
    (browser (via y), well_addressed y, partial_match y, cls c),
-   (correlated_b x (snd c), status_respected_b x (snd c), shape_respected_b x (snd c),
-    accepted_when_fine_b x (snd c), status_raised_when_fine_b x (snd c))).
+   (correlated_b x (snd c), every_data_answers_b x (snd c), status_respected_b x (snd c), shape_respected_b x (snd c),
+    accepted_when_fine_m_b (configure_m (match meaning (opt s) with Some b => b | None => false end) (c_delivery_m c)) (snd c),
+    status_raised_when_fine_b x (snd c))).
